@@ -181,6 +181,8 @@ impl MultiPeerBackend for PubSocketBackend {
 pub struct PubSocket {
     pub(crate) backend: Arc<PubSocketBackend>,
     binds: HashMap<Endpoint, AcceptStopHandle>,
+    /// Publishes in a row that left something buffered (see `backend::yield_once`)
+    unflushed_publishes: usize,
 }
 
 impl Drop for PubSocket {
@@ -199,6 +201,7 @@ impl SocketSend for PubSocket {
             });
         }
         let mut dead_peers = Vec::new();
+        let mut unflushed = false;
         // The walk is not a snapshot: when the table shrinks under it (subscribers leaving on
         // other threads) it resumes at an earlier bucket and meets entries again.
         let mut served = std::collections::HashSet::new();
@@ -216,7 +219,7 @@ impl SocketSend for PubSocket {
                         .send_queue
                         .try_send(Message::Message(message.clone()));
                     match res {
-                        Ok(()) => {}
+                        Ok(flushed) => unflushed |= !flushed,
                         Err(ZmqError::Codec(CodecError::Io(e))) => {
                             if e.kind() == ErrorKind::BrokenPipe {
                                 dead_peers.push((subscriber.key().clone(), subscriber.conn));
@@ -229,6 +232,7 @@ impl SocketSend for PubSocket {
                             // For processing outgoing messages:
                             //   SHALL silently drop the message if the queue for a subscriber is full.
                             log::debug!("Queue for subscriber is full",);
+                            unflushed = true;
                         }
                         Err(e) => {
                             log::error!("Error receiving message: {:?}", e);
@@ -242,6 +246,15 @@ impl SocketSend for PubSocket {
         }
         for (peer, conn) in dead_peers {
             self.backend.forget_conn(&peer, conn).await;
+        }
+        if unflushed {
+            self.unflushed_publishes += 1;
+            if self.unflushed_publishes >= crate::backend::UNFLUSHED_PUBLISHES_BEFORE_YIELD {
+                self.unflushed_publishes = 0;
+                crate::backend::yield_once().await;
+            }
+        } else {
+            self.unflushed_publishes = 0;
         }
         Ok(())
     }
@@ -259,6 +272,7 @@ impl Socket for PubSocket {
                 socket_options: options,
             }),
             binds: HashMap::new(),
+            unflushed_publishes: 0,
         }
     }
 
